@@ -142,8 +142,8 @@ func c18ReloadBody(stage string, withHooks bool) {
 			st.Plant(rng, u)
 		}
 	}
-	plant(A, []ovlUser{{Name: "root", Pw: "rootA", Admin: true, Set: 1}, {Name: "onlyA", Pw: "pwA", Set: 1}, {Name: "mix", Pw: "mixA", Set: 1}, {Name: "a3", Pw: "a3pw", Set: 3}, {Name: "slow", Pw: "slowpw", Set: 7}})
-	plant(B, []ovlUser{{Name: "root", Pw: "rootB", Admin: true, Set: 2}, {Name: "onlyB", Pw: "pwB", Set: 2}, {Name: "mix", Pw: "mixB", Set: 1}, {Name: "b3", Pw: "b3pw", Set: 3}, {Name: "slow", Pw: "slowpw", Set: 7}})
+	plant(A, []ovlUser{{Name: "root", Pw: "rootA", Admin: true, Set: 1}, {Name: "onlyA", Pw: "pwA", Set: 1}, {Name: "mix", Pw: "mixA", Set: 1}, {Name: "a3", Pw: "a3pw", Set: 3}, {Name: "slow", Pw: "slowpw", Set: 7}, {Name: "bgupd", Pw: "bgupd-0", Set: 1}})
+	plant(B, []ovlUser{{Name: "root", Pw: "rootB", Admin: true, Set: 2}, {Name: "onlyB", Pw: "pwB", Set: 2}, {Name: "mix", Pw: "mixB", Set: 1}, {Name: "b3", Pw: "b3pw", Set: 3}, {Name: "slow", Pw: "slowpw", Set: 7}, {Name: "bgupd", Pw: "bgupd-0", Set: 2}})
 	os.WriteFile(cfg, []byte(A.yaml()), 0600) //nolint:errcheck
 	hooksDir := filepath.Join(root, "hooks")
 	hooksLog := filepath.Join(root, "hooks.log")
@@ -152,7 +152,11 @@ func c18ReloadBody(stage string, withHooks bool) {
 	if !withHooks {
 		hooksDir = ""
 	}
-	ag, err := NewStore(cfg, "", "", "", hooksDir)
+	mode := ""
+	if !withHooks {
+		mode = "local" // login-triggered upgrades share the update queue with the clients' updates
+	}
+	ag, err := NewStore(cfg, mode, "", "", hooksDir)
 	if err != nil {
 		R.Fatal = err.Error()
 		return
@@ -189,7 +193,7 @@ func c18ReloadBody(stage string, withHooks bool) {
 	}
 	// background clients: every request must be answered
 	var stop int32
-	var answered, bgErrors int64
+	var answered, bgErrors, updatesAnswered int64
 	var wg sync.WaitGroup
 	c18Answered = &answered
 	var reported int32
@@ -207,6 +211,23 @@ func c18ReloadBody(stage string, withHooks bool) {
 				reportWedge()
 				R.Write()
 				os.Exit(0)
+			}
+		}
+	}()
+	// a client that keeps changing one user's password: its requests wait in the update queue during reloads
+	wg.Add(1)
+	go func() {
+		defer wg.Done()
+		for i := 1; atomic.LoadInt32(&stop) == 0; i++ {
+			done := make(chan struct{})
+			go func() { iface.Update("bgupd", fmt.Sprintf("bgupd-%d", i)); close(done) }() //nolint:errcheck
+			select {
+			case <-done:
+				atomic.AddInt64(&answered, 1)
+				atomic.AddInt64(&updatesAnswered, 1)
+			case <-time.After(30 * time.Second):
+				atomic.AddInt64(&bgErrors, 1)
+				return
 			}
 		}
 	}()
@@ -368,7 +389,7 @@ func c18ReloadBody(stage string, withHooks bool) {
 				if !ok0 {
 					R.Violate("c18:reload:set-3-user-did-not-authenticate-before", "", id, nil)
 				}
-				if ok1 || listed {
+				if (ok1 || listed) && mode == "" { // with local upgrades the login above has moved the record to the default set
 					R.Violate("c18:reload:good:dropped-parameter-set-still-served", fmt.Sprintf("after a successful reload to a configuration without parameter set 3, user %s (hashed with set 3) authenticates=%v listed=%v: old and new parameter sets are mixed", u3, ok1, listed), id, nil)
 				}
 			}
@@ -433,6 +454,7 @@ func c18ReloadBody(stage string, withHooks bool) {
 	time.Sleep(200 * time.Millisecond)
 	checkHooks("final", true)
 	R.Count("background_requests_answered", int(atomic.LoadInt64(&answered)))
+	R.Count("background_updates_answered", int(atomic.LoadInt64(&updatesAnswered)))
 	reportWedge()
 	R.Sample(map[string]any{"configurations": "A: base A, default 1, keys 0x10..; B: base B, default 2, keys 0x60..", "reloads": R.Get("reloads"), "background_requests_answered": answered})
 }
